@@ -7,6 +7,7 @@ import (
 	"github.com/gobwas/httphead"
 	"io"
 	"strings"
+	"time"
 	"verifmc/env"
 
 	"github.com/gobwas/ws"
@@ -159,6 +160,70 @@ func main() {
 		// offers all of which are accepted (n = 1..24, in one header line or one line each),
 		// through every selection path: the response names exactly the chosen protocol and all n
 		// extensions with their parameters, and so does the returned handshake.
+		// HTTPUpgrader.Timeout "is the maximum amount of time an Upgrade() will spent while writing
+		// handshake response": the user's callbacks (selectors, negotiators - which may look things
+		// up) run with no deadline armed on the hijacked connection; the deadline is armed before the
+		// first write of the response and gone when Upgrade returns. Order of events, no clock.
+		r.Part("E5-HTTPUpgrader-timeout-covers-the-response-write-only", func(t *explore.T) {
+			for _, timeout := range []time.Duration{0, time.Second} {
+				for _, withExt := range []bool{false, true} {
+					for _, refuse := range []bool{false, true} {
+						timeout, withExt, refuse := timeout, withExt, refuse
+						t.Do(func() string {
+							return fmt.Sprintf("HTTPUpgrader Timeout=%v, request with protocols%s, callback refusing=%v", timeout, map[bool]string{true: " and extensions", false: ""}[withExt], refuse)
+						}, func() *explore.Fail {
+							var events []string
+							u := ws.HTTPUpgrader{Timeout: timeout,
+								Protocol: func(p string) bool { events = append(events, "callback:Protocol"); return p == "b" },
+								Negotiate: func(o httphead.Option) (httphead.Option, error) {
+									events = append(events, "callback:Negotiate")
+									if refuse {
+										return httphead.Option{}, hs.ErrCallback
+									}
+									return o.Clone(), nil
+								}}
+							req := "GET /chat HTTP/1.1\r\nHost: example.com\r\nUpgrade: websocket\r\nConnection: Upgrade\r\nSec-WebSocket-Key: " + hs.CanonKey + "\r\nSec-WebSocket-Version: 13\r\nSec-WebSocket-Protocol: a, b\r\n"
+							if withExt {
+								req += "Sec-WebSocket-Extensions: x, y; q=1\r\n"
+							}
+							out, _, err := hs.RunHTTPUpgraderEvents(u, []byte(req+"\r\n"), &events)
+							wantOK := !(refuse && withExt)
+							if (err == nil) != wantOK || len(out) == 0 {
+								return explore.Failf("harness-outcome", "err=%v out=%q", err, out)
+							}
+							armed := false
+							wrote := false
+							for _, e := range events {
+								switch {
+								case strings.HasSuffix(e, "(armed)"):
+									armed = true
+								case strings.HasSuffix(e, "(none)"):
+									armed = false
+								case strings.HasPrefix(e, "callback:"):
+									if armed {
+										return explore.Failf("callback-runs-under-the-response-write-deadline", "events: %v", events)
+									}
+								case e == "write":
+									wrote = true
+									if timeout != 0 && !armed {
+										return explore.Failf("response-written-without-the-configured-deadline", "events: %v", events)
+									}
+								}
+							}
+							if !wrote {
+								return explore.Failf("harness-no-write", "%v", events)
+							}
+							if armed {
+								return explore.Failf("deadline-left-armed-after-Upgrade", "events: %v", events)
+							}
+							return nil
+						})
+					}
+				}
+			}
+			t.Outcome("ordered")
+		})
+
 		r.Part("E4-protocol-and-extension-lists-of-every-length", func(t *explore.T) {
 			for n := 1; n <= 24; n++ {
 				for _, split := range []bool{false, true} {
